@@ -71,6 +71,30 @@ func (env *SpecEnv) resolveType(s string) types.Type {
 	if env.pkgScope == nil {
 		sfail("no package scope to resolve type %s", s)
 	}
+	switch {
+	case strings.HasPrefix(s, "*"):
+		return types.NewPointer(env.resolveType(s[1:]))
+	case strings.HasPrefix(s, "[]"):
+		return types.NewSlice(env.resolveType(s[2:]))
+	}
+	if i := strings.Index(s, "."); i > 0 && !strings.ContainsAny(s, "[]() ") {
+		// qualified name: look the package up among the imports (or all loaded packages)
+		q, n := s[:i], s[i+1:]
+		for _, imp := range env.pkgScope.Imports() {
+			if imp.Name() == q {
+				if obj := imp.Scope().Lookup(n); obj != nil {
+					return obj.Type()
+				}
+			}
+		}
+		for _, p := range env.eng.tpkgs {
+			if p.Name() == q {
+				if obj := p.Scope().Lookup(n); obj != nil {
+					return obj.Type()
+				}
+			}
+		}
+	}
 	tv, err := types.Eval(env.eng.fset, env.pkgScope, token.NoPos, s)
 	if err != nil {
 		// allow qualified names of module packages: list.List
@@ -700,6 +724,12 @@ func (env *SpecEnv) evalModLoc(e *SExpr) []modLoc {
 							}
 						}
 					}
+				}
+			case "alltype":
+				// alltype(T): every field of every object of struct type T
+				t := env.resolveType(e.Args[1].String())
+				if _, ok := t.Underlying().(*types.Struct); ok {
+					return []modLoc{{kind: "allkey", key: fieldKey(t, ""), T: t, text: e.String()}}
 				}
 			case "allelems":
 				t := env.resolveType(e.Args[1].String())
